@@ -12,6 +12,9 @@ check driver treats that as a broken obligation.
 """
 import re, sys, os, json
 
+sys.path.insert(0, os.path.dirname(os.path.abspath(__file__)))
+import rustlex  # noqa: E402
+
 REPO = os.environ.get("PDB_REPO", "/repo")
 OUT = os.path.join(os.path.dirname(os.path.abspath(__file__)), "..", "lean", "Pdb", "Gen")
 
@@ -26,9 +29,14 @@ def read(rel):
 
 
 def strip_comments(src):
-    src = re.sub(r"/\*.*?\*/", "", src, flags=re.S)
-    src = re.sub(r"//[^\n]*", "", src)
-    return src
+    """comments blanked and the contents of string / char literals masked (tools/rustlex.py), so that a
+    `'}'`, a `"{"` or a `//` inside a literal cannot confuse the brace matching below"""
+    try:
+        toks = rustlex.lex(src)
+        rustlex.check_balanced(toks, "source")
+        return rustlex.mask(src)
+    except rustlex.LexError as e:
+        raise TranslateError("cannot lex the source: %s" % e)
 
 
 # ---------------------------------------------------------------- tokenizer / parser
@@ -42,6 +50,9 @@ TOK = re.compile(r"""
 
 WIDTH = {"u8": 8, "u16": 16, "u32": 32, "u64": 64, "usize": 64, "i32": 32, "i64": 64, "u128": 128,
          "ColId": 8}
+# Signed values are only tracked inside CONDS with `signed=True` (the i64 log-queue counter): there a
+# NEGATIVE width -w stands for i<w>, values are Lean `Int`s and arithmetic goes through iadd / isub / icast.
+SIGNED = {"i8": -8, "i16": -16, "i32": -32, "i64": -64, "isize": -64}
 
 
 def tokenize(s):
@@ -69,8 +80,9 @@ class Parser:
     # Rust precedence, loosest first
     LEVELS = [["|"], ["^"], ["&"], ["<<", ">>"], ["+", "-"], ["*", "/", "%"]]
 
-    def __init__(self, toks, env, consts, calls):
+    def __init__(self, toks, env, consts, calls, signed=False):
         self.t, self.i = toks, 0
+        self.signed = signed
         self.env = env          # identifier -> (lean, width)
         self.consts = consts    # NAME -> (leanname, width, value)
         self.calls = calls      # rust call path -> (leanname, [param widths], ret width)
@@ -114,6 +126,10 @@ class Parser:
             raise TranslateError("width mismatch %s(%s) %s %s(%s)" % (la, wa, op, lb, wb))
         if w is None:
             w = 64
+        if w < 0:
+            if op not in ("+", "-"):
+                raise TranslateError("unsupported signed operator %s" % op)
+            return ("(%s %d %s %s)" % ({"+": "iadd", "-": "isub"}[op], -w, la, lb), w)
         f = {"+": "wadd", "-": "wsub", "*": "wmul", "&": "wand", "|": "wor", "^": "wxor",
              "/": "wdiv", "%": "wmod"}[op]
         return ("(%s %d %s %s)" % (f, w, la, lb), w)
@@ -125,6 +141,14 @@ class Parser:
             ty = self.eat("id")[1]
             if ty not in WIDTH:
                 raise TranslateError("cast to unknown type " + ty)
+            if self.signed and ty in SIGNED:
+                if e[1] is not None and e[1] < 0:
+                    e = ("(iwrap %d %s)" % (-SIGNED[ty], e[0]), SIGNED[ty])
+                else:
+                    e = ("(icast %d %s)" % (-SIGNED[ty], e[0]), SIGNED[ty])
+                continue
+            if e[1] is not None and e[1] < 0:
+                raise TranslateError("unsupported cast of a signed value to " + ty)
             e = ("(wcast %d %s)" % (WIDTH[ty], e[0]), WIDTH[ty])
         return e
 
@@ -187,7 +211,9 @@ class Parser:
             last = path[-1]
             if last in self.consts:
                 n, w, _ = self.consts[last]
-                return (n, w)
+                if self.signed and w < 0:
+                    return ("((%s : Nat) : Int)" % n, w)
+                return (n, abs(w))
             raise TranslateError("unknown identifier " + p)
         raise TranslateError("unexpected token %s" % (tok,))
 
@@ -347,24 +373,35 @@ LETS = [
 
 
 # Boolean conditions extracted from larger functions: (file, impl, fn, regex with one group = the
-# condition text, lean name, params [(name,width)], textual substitutions applied before parsing)
+# condition text, lean name, params [(name,width)], textual substitutions applied before parsing, signed).
+# A negative width -w is the signed type i<w> (Lean `Int`); `signed=True` switches the expression
+# translation to iadd / isub / icast (two's complement wrapping, see Pdb/Gen/Prim.lean).
+# The COMPLETE `if` headers these comparisons sit in (all conjuncts) are pinned separately by
+# tools/skeleton.py (`<fn>_conds` in Pdb/Gen/Order.lean, obligations in Pdb/Proofs/Order.lean).
 CONDS = [
     ("src/db.rs", "DbInner", "commit_raw", r"(queue\.bytes\s*[<>=!]+\s*MAX_COMMIT_QUEUE_BYTES)", "commit_throttle",
-     [("q", 64)], [("queue.bytes", "q")]),
+     [("q", 64)], [("queue.bytes", "q")], False),
     ("src/db.rs", "DbInner", "process_commits",
      r"if\s+(queue\.bytes\s*[<>=!]+\s*MAX_COMMIT_QUEUE_BYTES\s*&&\s*\(queue\.bytes\s*\+\s*commit\.bytes\)\s*[<>=!]+\s*MAX_COMMIT_QUEUE_BYTES)",
-     "commit_wake", [("q", 64), ("c", 64)], [("queue.bytes", "q"), ("commit.bytes", "c")]),
+     "commit_wake", [("q", 64), ("c", 64)], [("queue.bytes", "q"), ("commit.bytes", "c")], False),
     ("src/db.rs", "DbInner", "process_commits", r"(\*queue\s*[<>=!]+\s*MAX_LOG_QUEUE_BYTES)", "log_throttle",
-     [("q", 64)], [("*queue", "q")]),
+     [("q", -64)], [("*queue", "q")], True),
     ("src/db.rs", "DbInner", "enact_logs",
      r"if\s+(\*queue\s*[<>=!]+\s*MAX_LOG_QUEUE_BYTES\s*&&\s*\(\*queue\s*\+\s*bytes\s+as\s+i64\)\s*[<>=!]+\s*MAX_LOG_QUEUE_BYTES)",
-     "log_wake", [("q", 64), ("b", 64)], [("*queue", "q"), ("bytes as i64", "b")]),
+     "log_wake", [("q", -64), ("b", 64)], [("*queue", "q"), ("bytes as", "b as")], True),
+]
+
+# `let <name> = if self.options.sync_data { A } else { B };` inside larger functions:
+# (file, impl, fn, let name, lean name)  ->  def <lean> (sync_data : Bool) : Nat := if sync_data then A else B
+IFLETS = [
+    ("src/db.rs", "DbInner", "enact_logs", "max_logs", "enact_max_logs"),
+    ("src/db.rs", "DbInner", "clean_logs", "keep_logs", "clean_keep_logs"),
 ]
 
 CMP = {"<=": "≤", ">=": "≥", "<": "<", ">": ">", "==": "=", "!=": "≠"}
 
 
-def translate_cond(text, env, consts, calls):
+def translate_cond(text, env, consts, calls, signed=False):
     """conjunction of comparisons between integer expressions -> Lean Bool"""
     parts = [p.strip() for p in text.split("&&")]
     out = []
@@ -373,8 +410,10 @@ def translate_cond(text, env, consts, calls):
         if not m:
             raise TranslateError("unsupported condition %r" % part)
         lhs, op, rhs = m.group(1).strip(), m.group(2), m.group(3).strip()
-        l, _ = Parser(tokenize(lhs), env, consts, calls).parse()
-        r, _ = Parser(tokenize(rhs), env, consts, calls).parse()
+        l, wl = Parser(tokenize(lhs), env, consts, calls, signed).parse()
+        r, wr = Parser(tokenize(rhs), env, consts, calls, signed).parse()
+        if wl is not None and wr is not None and (wl < 0) != (wr < 0):
+            raise TranslateError("comparison of a signed with an unsigned value in %r" % part)
         out.append("decide (%s %s %s)" % (l, CMP[op], r))
     return " && ".join(out)
 
@@ -425,7 +464,7 @@ def main():
             out_consts.append("/-- %s: `%s` -/\ndef %s : List Nat := %s" % (f, name, lname, "[" + ", ".join(map(str, vals)) + "]"))
             report["consts"][lname] = vals
             continue
-        w = WIDTH.get(ty.strip(), 64)
+        w = SIGNED.get(ty.strip(), WIDTH.get(ty.strip(), 64))      # negative = signed (see SIGNED)
         val = eval_const_expr(expr, lookup)
         scope[name] = (lname, w, val)
         consts[lname] = (lname, w, val)
@@ -515,7 +554,7 @@ def main():
             env[ln] = ("(%s %s)" % (lname, argnames), w if w else 64)
             report["funcs"][lname] = " ".join(expr.split())
 
-    for f, impl, fn, rx, lname, params, subs in CONDS:
+    for f, impl, fn, rx, lname, params, subs, signed in CONDS:
         if f not in srcs:
             srcs[f] = strip_comments(read(f))
         psrc, ret, body = find_fn_body(srcs[f], impl, fn)
@@ -529,9 +568,29 @@ def main():
         env = {n: (n, w) for n, w in params}
         fconsts = dict(consts)
         fconsts.update(per_file.get(f, {}))
-        lean = translate_cond(text, env, fconsts, calls)
-        sig = " ".join("(%s : Nat)" % n for n, _ in params)
+        lean = translate_cond(text, env, fconsts, calls, signed)
+        sig = " ".join("(%s : %s)" % (n, "Int" if w < 0 else "Nat") for n, w in params)
         out_bits.append("/-- %s: in `%s::%s`: condition `%s` -/\ndef %s %s : Bool := %s" % (f, impl, fn, orig, lname, sig, lean))
+        report["funcs"][lname] = orig
+
+    for f, impl, fn, let, lname in IFLETS:
+        if f not in srcs:
+            srcs[f] = strip_comments(read(f))
+        psrc, ret, body = find_fn_body(srcs[f], impl, fn)
+        ms = re.findall(r"\blet\s+%s\s*(?::\s*\w+\s*)?=\s*(.*?);" % re.escape(let), body, re.S)
+        if len(ms) != 1:
+            raise TranslateError("let %s: expected exactly one binding in %s::%s, found %d" % (let, impl, fn, len(ms)))
+        orig = " ".join(ms[0].split())
+        m = re.fullmatch(r"if\s+self\.options\.sync_data\s*\{([^{}]*)\}\s*else\s*\{([^{}]*)\}", ms[0].strip(), re.S)
+        if not m:
+            raise TranslateError("let %s in %s::%s is no longer `if self.options.sync_data { A } else { B }`: %r"
+                                 % (let, impl, fn, orig))
+        fconsts = dict(consts)
+        fconsts.update(per_file.get(f, {}))
+        a, _ = Parser(tokenize(m.group(1).strip()), {}, fconsts, calls).parse()
+        b, _ = Parser(tokenize(m.group(2).strip()), {}, fconsts, calls).parse()
+        out_bits.append("/-- %s: in `%s::%s`: `let %s = %s` -/\ndef %s (sync_data : Bool) : Nat := if sync_data then %s else %s"
+                        % (f, impl, fn, let, orig, lname, a, b))
         report["funcs"][lname] = orig
 
     os.makedirs(OUT, exist_ok=True)
@@ -550,8 +609,10 @@ def write_if_changed(path, text):
             return
     except FileNotFoundError:
         pass
-    with open(path, "w") as f:
+    tmp = path + ".tmp%d" % os.getpid()
+    with open(tmp, "w") as f:
         f.write(text)
+    os.replace(tmp, path)
 
 
 if __name__ == "__main__":
@@ -559,4 +620,7 @@ if __name__ == "__main__":
         main()
     except TranslateError as e:
         print("rs2lean: TRANSLATE-ERROR: %s" % e)
+        sys.exit(2)
+    except (OSError, IndexError, KeyError, ValueError, AttributeError, re.error) as e:
+        print("rs2lean: TRANSLATE-ERROR: %s: %s" % (type(e).__name__, e))
         sys.exit(2)
